@@ -152,9 +152,7 @@ func slotWordWriteR(r *Run, in ssa.Instruction, resolve func(ssa.Value) ssa.Valu
 			return "", nil
 		}
 		addr = a
-		if len(x.Common().Args) > 1 {
-			val = x.Common().Args[len(x.Common().Args)-1]
-		}
+		val = core.AtomicLastArg(x)
 	default:
 		return "", nil
 	}
